@@ -33,7 +33,7 @@ def gen_histories(res, work, tier):
     return outs
 
 
-def run(pid, tier):
+def run_lib(pid, tier):
     work = workdir(pid)
     res = Result(pid, tier, "model_checking")
     vh = build_harness()
@@ -96,20 +96,137 @@ def run(pid, tier):
 
 
 def check_c04(tier):
-    return run("C04", tier)
+    return run_lib("C04", tier)
 
 
 def check_c05(tier):
-    return run("C05", tier)
+    return run_lib("C05", tier)
 
 
 def check_c06(tier):
-    return run("C06", tier)
+    return run_lib("C06", tier)
 
 
 def check_c18(tier):
-    return run("C18", tier)
+    return run_lib("C18", tier)
 
 
 def check_c20(tier):
-    return run("C20", tier)
+    return run_lib("C20", tier)
+
+
+def check_c17(tier):
+    pid = "C17"
+    work = workdir(pid)
+    res = Result(pid, tier, "model_checking")
+    vh = build_harness()
+    cfg = "Gen_Squash_quick.cfg" if tier == "quick" else "Gen_Squash_thorough.cfg"
+    g = tlc("MC_Gen_Squash.tla", cfg, os.path.join(work, "gen"), workers=8, timeout=3000, heap="12g")
+    res.add_tlc("gen:" + cfg, g)
+    cases = os.path.join(work, "cases.ndjson")
+    n = write_prints(g["out"], "CASE", cases)
+    if n == 0:
+        raise ToolError("Gen_Squash produced nothing")
+    shards = 10
+    evs = [os.path.join(work, "ev.%d.ndjson" % i) for i in range(shards)]
+    cmds = [[vh, "squash-replay", cases, evs[i], "--shard", "%d/%d" % (i, shards)] for i in range(shards)]
+    for rc, out in parallel(cmds, 3000):
+        if rc != 0:
+            raise ToolError("squash-replay failed: " + out[-2000:])
+
+    def judge(i):
+        r = tlc("Trace_Squash.tla", "Trace_Squash.cfg", os.path.join(work, "tr_%d" % i), workers=1, timeout=3000, env={"TRACE": evs[i]},
+                trace_mode=True, heap="3g")
+        if '"ACCEPTED"' not in r["out"]:
+            raise ToolError("Trace_Squash did not consume %s:\n%s" % (evs[i], r["out"][-2000:]))
+        return i, prints(r["out"], "VERDICT")
+
+    total = 0
+    with concurrent.futures.ThreadPoolExecutor(max_workers=5) as ex:
+        for i, vs in ex.map(judge, range(shards)):
+            for v in vs:
+                ev = None
+                for line in open(evs[i]):
+                    e = json.loads(line)
+                    if e["case"] == v["case"]:
+                        ev = e
+                        break
+                p = save_replay(work, "C17_case%d" % v["case"], {"property": pid, "reasons": v["bad"][:10], "event": ev})
+                res.violation(p, "depth %d: %s" % (v["depth"], json.dumps(v["bad"])[:300]))
+    for i in range(shards):
+        total += sum(1 for _ in open(evs[i]))
+    res.cov["traces_validated_against_impl"] = total
+    res.cov["evaluations"] = total
+    res.cov["distinct_nontrivial"] = n
+    res.cov["samples"] = [json.loads(open(cases).readlines()[j]) for j in (0, n // 2, n - 1)]
+    res.cov["exhaustive"] = True
+    res.cov["rule"] = ("every block-reference graph on 3 notes with <= 2 references per note (targets: self, the others, a missing note) "
+                       "squashed from note 1 at every depth 0..MaxDepth, plus self-loop / chain / 2- and 3-cycles at depths 7, 8, 64, 254, "
+                       "255; Graph::squash and the CLI route (build_key_from_iter + export) are compared by TLC with Lib!SquashBag; a "
+                       "run exceeding 60 s is recorded as a hang")
+    return res.finish()
+
+
+def check_c16(tier):
+    import random, shutil
+    pid = "C16"
+    work = workdir(pid)
+    res = Result(pid, tier, "model_checking")
+    vh = build_harness()
+    rnd = random.Random(seed())
+    libs = [(rnd.randrange(1, 10**6), n) for n in ((60, 150, 300) if tier == "quick" else (50, 80, 120, 150, 200, 250, 300, 350, 400, 120, 220, 320))]
+    threads = [1, 2, 3, 8, 16]
+    routes = ["import", "insert", "fs"]
+    norders = 1 if tier == "quick" else 2
+    jobs = []
+    for li, (s, n) in enumerate(libs):
+        for t in threads:
+            for r in routes:
+                for o in range(norders):
+                    jobs.append((li, s, n, t, r, rnd.randrange(1, 10**6)))
+
+    def one(j):
+        li, s, n, t, r, o = j
+        out = os.path.join(work, "dump_%d_%d_%s_%d.json" % (li, t, r, o))
+        scratch = os.path.join(work, "fs_%d_%d_%s_%d" % (li, t, r, o))
+        rc, log_, _ = run([vh, "lib-dump", str(s), str(n), r, str(o), scratch, out], 900, env={"RAYON_NUM_THREADS": str(t)})
+        if rc != 0 or not os.path.exists(out):
+            return {"ev": "Observe", "lib": li, "config": {"threads": t, "route": r, "order": o}, "digests": {"crashed": "rc=%s" % rc}}, None
+        d = json.load(open(out))
+        return {"ev": "Observe", "lib": li, "config": {"threads": t, "route": r, "order": o}, "digests": d["digests"]}, out
+
+    events = []
+    with concurrent.futures.ThreadPoolExecutor(max_workers=6) as ex:
+        for e, out in ex.map(one, jobs):
+            e["dump"] = out
+            events.append(e)
+    events.sort(key=lambda e: (e["lib"], e["config"]["threads"], e["config"]["route"], e["config"]["order"]))
+    # all observations of one library must have the same sections
+    tr = os.path.join(work, "observe.ndjson")
+    with open(tr, "w") as f:
+        for e in events:
+            f.write(json.dumps({k: v for k, v in e.items() if k != "dump"}) + "\n")
+    r = tlc("Trace_Determinism.tla", "Trace_Determinism.cfg", os.path.join(work, "tr"), workers=1, timeout=1800, env={"TRACE": tr},
+            trace_mode=True, heap="3g")
+    if '"ACCEPTED"' not in r["out"]:
+        raise ToolError("Trace_Determinism did not consume the trace:\n" + r["out"][-2000:])
+    res.cov["states"] = r["distinct"]
+    res.cov["transitions"] = r["generated"]
+    for v in prints(r["out"], "VERDICT"):
+        e = events[v["line"] - 1]
+        p = save_replay(work, "C16_line%d" % v["line"], {"property": pid, "reasons": v["bad"], "library": {"seed": libs[e["lib"]][0], "notes": libs[e["lib"]][1]},
+                                                          "config": e["config"], "dump": e["dump"]})
+        res.violation(p, json.dumps(v["bad"])[:300])
+    for e in events:
+        if e["dump"] and not res.violations:
+            os.remove(e["dump"])
+    res.cov["traces_validated_against_impl"] = len(events)
+    res.cov["evaluations"] = len(events)
+    res.cov["distinct_nontrivial"] = len(events)
+    res.cov["samples"] = [{k: v for k, v in e.items() if k != "dump"} for e in events[:2]]
+    res.cov["rule"] = ("%d generated libraries (60-400 notes, sub-directories, duplicate titles, tree-shaped block references, inline links) x rayon "
+                       "pool sizes 1,2,3,8,16 x load routes (Graph::import of a HashMap, incremental inserts in a permuted order, fs loader on "
+                       "a directory created in a permuted order), each in its own process (fresh RandomState); one Observe event per run; "
+                       "TLC requires all observations of a library to coincide section by section" % len(libs))
+    res.assumptions.append("libraries come from a seeded driver (VERIF_SEED), not from TLC: they must be large enough for rayon to split")
+    return res.finish()
